@@ -158,18 +158,45 @@ def make_c08(spec_factory: Any, share: str = "chart", beh_kw: Optional[Dict[str,
     return mk
 
 
-SYM8 = ["per run: caller input, durations (so every interleaving of the two runs' completions), outcome kinds, want"]
-for name, f, share, tier, kw, goals in [
-    ("rhombus_shared_chart", lambda: C.rhombus(True), "chart", "quick", {}, ("one_fails_other_succeeds", "both_succeed")),
-    ("oneof_shared_chart", C.oneof_basic, "chart", "quick", {}, ("one_fails_other_succeeds",)),
-    ("recurrent_shared_chart", lambda: C.rec_simple(1, True), "chart", "quick", {}, ("reiteration_or_retry",)),
-    ("recurrent_two_charts", lambda: C.rec_simple(1, True), "classes", "quick", {}, ("reiteration_or_retry",)),
-    ("switch_shared_chart", lambda: C.switch_basic(False, True), "chart", "thorough", {}, ()),
-    ("recurrent_inner_shared_chart", lambda: C.rec_inner_start(1, True), "chart", "thorough", {}, ()),
+SYM8 = ["per run: caller input, durations of the listed nodes (so every interleaving of the two runs' completions), "
+        "outcome kinds, want"]
+
+
+def _parts2(names: List[Tuple[str, int]]) -> List[Dict[str, Any]]:
+    parts: List[Dict[str, Any]] = [{}]
+    for nm, n in names:
+        parts = [dict(p, **{"r%d.%s" % (r, nm): i}) if False else dict(p, **{nm: i}) for p in parts for i in range(n)]
+    return parts
+
+
+def _rhombus_b() -> Spec:
+    from ..spec import E1, OK, In, Node
+    return Spec("rhombus", [Node("A"), Node("B", (("a", In("A")),), kinds=(OK, E1)), Node("C", (("a", In("A")),)),
+                            Node("D", (("b", In("B")), ("c", In("C"))))], "A", "D")
+
+
+for name, f, share, tier, kw, goals, parts in [
+    ("rhombus_shared_chart", _rhombus_b, "chart", "quick", {"dur_nodes": {"B", "C"}},
+     ("one_fails_other_succeeds", "both_succeed"), _parts2([("r0.B.kind0", 2), ("r1.B.kind0", 2)])),
+    ("oneof_shared_chart", C.oneof_basic, "chart", "quick", {"dur_nodes": {"C1", "C2"}}, ("one_fails_other_succeeds",),
+     _parts2([("r0.C1.kind0", 2), ("r1.C1.kind0", 2), ("r0.C2.kind0", 2), ("r1.C2.kind0", 2)])),
+    ("recurrent_shared_chart", lambda: C.rec_simple(1, True), "chart", "quick", {"dur_nodes": {"M", "D"}},
+     ("reiteration_or_retry",), _parts2([("r0.D.want", 3), ("r1.D.want", 3)])),
+    ("recurrent_two_charts", lambda: C.rec_simple(1, True), "classes", "quick", {"dur_nodes": {"M", "D"}},
+     ("reiteration_or_retry",), _parts2([("r0.D.want", 3), ("r1.D.want", 3)])),
+    ("switch_shared_chart", lambda: C.switch_basic(False, True), "chart", "thorough", {"dur_nodes": {"S", "X", "Y"}}, (),
+     _parts2([("r0.S.label0", 2), ("r1.S.label0", 2), ("r0.X.kind0", 2), ("r1.X.kind0", 2)])),
+    ("recurrent_inner_shared_chart", lambda: C.rec_inner_start(1, True), "chart", "thorough",
+     {"dur_nodes": {"S", "M", "D", "Side"}}, (), _parts2([("r0.D.want", 3), ("r1.D.want", 3)])),
+    ("rhombus_all_durations", _rhombus_b, "chart", "thorough", {"dur_nodes": {"A", "B", "C", "D"}}, (),
+     _parts2([("r0.B.kind0", 2), ("r1.B.kind0", 2)])),
 ]:
-    register(Job("C08", name, make_c08(f, share, kw), tier=tier, budget_s=500 if tier == "quick" else 2400, goals=goals,
-                 doc=doc(name, SYM8, {"bounds": "2 overlapping runs on one virtual loop; process-wide pool registries are "
-                                               "stubbed (their sharing is outside the claim)"})))
-register(Job("C08", "rhombus_cancel_first", make_c08(lambda: C.rhombus(False), "chart", {}, cancel=24), tier="quick",
-             budget_s=500, goals=("first_run_cancelled",),
-             doc=doc("rhombus, first run cancelled at a symbolic loop iteration", SYM8)))
+    register(Job("C08", name, make_c08(f, share, kw), tier=tier, budget_s=400 if tier == "quick" else 2400, goals=goals,
+                 parts=parts,
+                 doc=doc(name, SYM8, {"bounds": "2 overlapping runs on one virtual loop; symbolic durations for nodes %s of "
+                                               "each run, the others 0; process-wide pool registries are stubbed (their "
+                                               "sharing is outside the claim)" % sorted(kw["dur_nodes"])})))
+register(Job("C08", "rhombus_cancel_first", make_c08(lambda: C.rhombus(False), "chart", {"dur_nodes": {"B", "C"}}, cancel=20),
+             tier="quick", budget_s=400, goals=("first_run_cancelled",),
+             parts=[{"cancel_at": i} for i in range(21)],
+             doc=doc("rhombus, first run cancelled at a loop iteration 0..20 (one part each)", SYM8)))
